@@ -1609,6 +1609,31 @@ func main() {
 		}
 	}
 
+	if os.Getenv("VERIF_SLOW") != "" {
+		w := newWorker()
+		type sl struct {
+			d time.Duration
+			h string
+		}
+		var all []sl
+		for _, b := range gen.bases[:40] {
+			mutations(b.body, true, func(kind string, mb []byte) {
+				t0 := time.Now()
+				w.eval(mb, false)
+				all = append(all, sl{time.Since(t0), kind + " " + hex.EncodeToString(mb)})
+			})
+		}
+		sort.Slice(all, func(i, j int) bool { return all[i].d > all[j].d })
+		var tot time.Duration
+		for _, a := range all {
+			tot += a.d
+		}
+		fmt.Println("cases", len(all), "total", tot)
+		for _, a := range all[:25] {
+			fmt.Println(a.d, a.h)
+		}
+		os.Exit(0)
+	}
 	tStart := time.Now()
 	order := make([]int, len(gen.bases))
 	for i := range order {
@@ -1670,7 +1695,7 @@ func main() {
 				if oi >= len(order) {
 					return
 				}
-				if oi%512 == 0 && run.TimeUp() {
+				if oi%16 == 0 && run.TimeUp() {
 					atomic.StoreInt32(&complete, 0)
 					return
 				}
